@@ -415,7 +415,9 @@ class Array(metaclass=MetaArray):
                 # args must be an array of correct dimensions
                 if isinstance(value, cls) and not cls._has_refs:
                     # same layout, copied byte by byte in _to_buffer
-                    offsets = value._offsets
+                    # own copy: `value._offsets` may be a live view of the
+                    # source buffer's table, or be refreshed by the source
+                    offsets = np.array(value._offsets)
                     size = value._get_size()
                 else:
                     if len(shape) > 1 and not hasattr(value, "shape"):
@@ -651,6 +653,9 @@ class Array(metaclass=MetaArray):
                 f"{self._get_size()} bytes of {self}"
             )
         self.__class__._to_buffer(self._buffer, self._offset, value, info)
+        if hasattr(info, "offsets"):
+            # the items may have moved: refresh what this handle cached
+            self._offsets = info.offsets
 
     def _get_offset(self, index):
         if isinstance(index, (int, np.integer)):
